@@ -124,7 +124,7 @@ func c02(run *ev.Run) int {
 		}
 	}
 	classNames := []string{"empty", "ascii", "utf8-2", "utf8-3", "utf8-4", "nul", "controls", "del", "percent", "pct-escape", "pct-trail", "crlf", "blanks", "tabs", "quotes", "long"}
-	sources := []string{"handler", "handler", "handler", "plain", "icept-before", "icept-after"}
+	sources := []string{"handler", "handler", "handler", "plain", "icept-before", "icept-after", "wraps-ctx"}
 	parallel(16, len(cfgs), func(ci int) {
 		c := cfgs[ci]
 		cfg := fmt.Sprintf("h2=%v/%s/%s/%s", c.http2, c.proto, c.codec, c.kind)
@@ -158,7 +158,7 @@ func c02(run *ev.Run) int {
 							before = 0
 						}
 						src := sources[r.Intn(len(sources))]
-						if src != "handler" && src != "icept-after" && before > 0 {
+						if src != "handler" && src != "wraps-ctx" && src != "icept-after" && before > 0 {
 							before = 0
 						}
 						key := fmt.Sprintf("c02/%s/code=%d/text=%s/src=%s/k=%d/before=%d", cfg, code, cn, src, k, before)
@@ -191,7 +191,18 @@ func c02Case(run *ev.Run, srv *svc.Server, ic *c02Icept, cs *svc.ClientSet, kind
 		meta = nil
 		k = 0
 	default:
-		ce := connect.NewError(code, errors.New(text))
+		var inner error = errors.New(text)
+		if src == "wraps-ctx" {
+			// a coded error whose cause happens to be a context error (say, a
+			// backend call that timed out) keeps its own code and message
+			if rr.Intn(2) == 0 {
+				inner = fmt.Errorf("%s: %w", text, context.DeadlineExceeded)
+			} else {
+				inner = fmt.Errorf("%s: %w", text, context.Canceled)
+			}
+			text = inner.Error()
+		}
+		ce := connect.NewError(code, inner)
 		details = c02Details(rr, k, uint64(rr.Int63()))
 		for _, d := range details {
 			ce.AddDetail(d)
@@ -205,7 +216,7 @@ func c02Case(run *ev.Run, srv *svc.Server, ic *c02Icept, cs *svc.ClientSet, kind
 	}
 	prog := &svc.Program{}
 	var sent []*gen.Msg
-	badSend := (kind == svc.ServerStream || kind == svc.Bidi) && (src == "handler" || src == "plain") && rr.Intn(4) == 0
+	badSend := (kind == svc.ServerStream || kind == svc.Bidi) && (src == "handler" || src == "plain" || src == "wraps-ctx") && rr.Intn(4) == 0
 	switch kind {
 	case svc.Unary, svc.ServerStream:
 		prog.Steps = append(prog.Steps, svc.Step{Op: "recv"})
